@@ -238,10 +238,41 @@ func runCase(c *fw.Ctx, we *sut.WebEnv, hc *http.Client, backend string, idx int
 			return
 		}
 	}
-	if !cmd("DATA", 354) {
-		return
+	// How the data block reaches the server is the client's business: after the 354 (usual), in
+	// the same write as the DATA line, or with the DATA line and a first part, the rest later
+	// (added after seeded change C02-7: the content must not depend on where the server's reads
+	// happen to cut the stream).
+	var replies []sut.Reply
+	var mal string
+	var ok bool
+	switch style := r.Intn(8); {
+	case style >= 3 || msg.lfdot:
+		if !cmd("DATA", 354) {
+			return
+		}
+		replies, mal, _, ok = ss.Step(wire)
+	default:
+		first := wire
+		if style == 2 && len(wire) > 2 {
+			first = wire[:r.Range(1, len(wire)-1)]
+		}
+		c.Count("data_sent_without_waiting_for_354", 1)
+		replies, mal, _, ok = ss.Step(append([]byte("DATA\r\n"), first...))
+		if ok && len(first) < len(wire) {
+			var more []sut.Reply
+			var mal2 string
+			more, mal2, _, ok = ss.Step(wire[len(first):])
+			replies = append(replies, more...)
+			mal += mal2
+		}
+		if ok && mal == "" {
+			if len(replies) == 0 || replies[0].Code != 354 {
+				k.fail("C02:smtp-dialogue", fmt.Sprintf("DATA sent together with the message was not answered 354 first: %v", replies), map[string]any{"trace": ss.Trace})
+				return
+			}
+			replies = replies[1:]
+		}
 	}
-	replies, mal, _, ok := ss.Step(wire)
 	if !ok {
 		k.hang("smtp-data", "session neither idle nor closed after the data block")
 		return
